@@ -12,16 +12,18 @@ CONFIGS = [("ALL", "slots.mechanisms = ALL\n"),
 RULE = ("T07: the mechanism registry (name -> CK_MECHANISM_TYPE, C_GetMechanismInfo) is dumped by executing prepareSupportedMecahnisms. K07: the COMPLETE matrix "
         "{C_EncryptInit, C_DecryptInit, C_SignInit, C_VerifyInit} x 72 keys (AES, DES2, DES3, generic, SHA256-HMAC, SHA1-HMAC secret keys; RSA, EC P-256, Ed25519 "
         "public and private keys; each with all usage flags false / true and with no / one of two complementary CKA_ALLOWED_MECHANISMS lists) x 48 mechanisms "
-        "(every mechanism the four functions dispatch on + 5 they do not), plus C_DigestInit / C_GenerateKey / C_GenerateKeyPair for every mechanism, under three "
+        "(every mechanism the four functions dispatch on + 5 they do not), plus C_WrapKey / C_UnwrapKey / C_DeriveKey x the same 72 keys (as wrapping / unwrapping / base key, WRAP / "
+        "UNWRAP / DERIVE flags false and true) x 9 mechanisms each, plus C_DigestInit / C_GenerateKey / C_GenerateKeyPair for every mechanism, under three "
         "configurations of slots.mechanisms (ALL, a positive list with an unknown name, a negative list): every cell's return code is compared with the model "
         "(quick: all cells for ALL, a sample of 4000 cells for the other two; thorough: all cells). Operation histories add the context-specific-login cases.")
 TRUSTED = ["C++ harness p11drv + python generators", "tools/tabledump.cpp (mechanism registry)"]
 ASSUMPTIONS = ["DSA/DH keys are not in the matrix (parameter generation is slow); their arms are in the model tables and theorems",
-               "wrap / unwrap / derive start conditions are checked once those calls are in the model (C13)"]
+               "the start conditions of C_WrapKey / C_UnwrapKey / C_DeriveKey are modelled in code order (Shm/Model/Wrap.lean) and validated cell by cell by the matrix; the "
+               "ONLY-IF theorem is proved for the four *Init functions, not yet for these three calls"]
 
 
 def in_projection(m):
-    if m["op"] in ("encinit", "decinit", "siginit", "verinit", "diginit", "genkey", "genpair"):
+    if m["op"] in ("encinit", "decinit", "siginit", "verinit", "diginit", "genkey", "genpair", "wrap", "unwrap", "derive"):
         return m["cat"] in ("rvclass", "rvcode")
     if m["op"] == "mechlist": return True
     return False
